@@ -4,7 +4,7 @@ from lib import *
 import progen
 import runlib
 
-THEOREMS = ["Sem.arith_sound", "Sem.sdiv_sound", "Sem.udiv_sound", "Sem.bitwise_sound", "Sem.shift_sound",
+THEOREMS = ["CF.control_flow_lowering_correct", "CF.lowering_correct", "CF.sim", "Sem.arith_sound", "Sem.sdiv_sound", "Sem.udiv_sound", "Sem.bitwise_sound", "Sem.shift_sound",
             "Sem.cmp_sound", "Sem.neg_sound", "Sem.complement_sound", "Sem.trunc_sound", "Sem.sext_sound",
             "Sem.zext_sound", "Sem.read_back", "Sem.wrap_eq_wrapW"]
 
@@ -86,9 +86,59 @@ def main():
                 "why": "a program reading back the members of a structure/word literal: expected exit status %d (oracle: weighted sum of "
                        "the member values), got %s" % (status, ans[:200]),
                 "source": src, "harness_request": "alpha\trun\tmain.pn\t" + esc(src), "oracle": "checks/agggen.py"})
+    # control flow: skeleton programs of opaque actions and oracle-driven conditions (blocks, if / else / else-if, forward
+    # gotos, labels, blocks ending in `loop`).  Three observations must coincide: the trace the real program prints, the trace
+    # of the source semantics (CF.execL) and the trace of the flow graph the Lean lowering produces (CF.run); and the basic
+    # blocks of the real IR must be bisimilar to that flow graph (theorem CF.lowering_correct relates the two model traces
+    # for every program; this ties both ends to the compiler).
+    import cfgen
+    ncf = 6000 if rep.tier == "thorough" else 400
+    cfcases = []
+    for i in range(ncf):
+        cr = rng.fork("cf%d" % i)
+        g = cfgen.Gen(cr.fork("g"), max_depth=2 + cr.below(3))
+        cfcases.append((g.body(), [cr.below(2) for _ in range(cr.below(14))]))
+    cfsrc = [cfgen.source(b, o) for b, o in cfcases]
+    cfrun = run_harness(["alpha\trun\tm.pn\t" + esc(x) for x in cfsrc])
+    cfir = run_harness(["alpha\tirs\tm.pn\t" + esc(x) for x in cfsrc])
+    cfreq = ["cf\t(cf (oracle %s) (body %s))" % (" ".join(map(str, o)), " ".join(cfgen.sx(x) for x in b)) for b, o in cfcases]
+    cfm = run_model(cfreq)
+    for (b, o), src, ha, hi, ma, mreq in zip(cfcases, cfsrc, cfrun, cfir, cfm, cfreq):
+        md = cfgen.parse_answer(ma)
+        hh, hd = kv(ha)
+        problems = []
+        if md is None:
+            problems.append("the model does not answer: " + ma[:100])
+        elif hh != "ok":
+            problems.append("a well-formed control-flow skeleton is not accepted: " + ha[:160])
+        else:
+            real = cfgen.trace_of_stdout(bytes.fromhex(hd["stdout"][2:]).decode()) if hd.get("stdout", "").startswith("h:") else ""
+            if md["nodup"] != "1":
+                problems.append("generator produced clashing label / block ids")
+            if real != md["src"]:
+                problems.append("the program's printed trace differs from the source semantics: real %s / model %s" % (real[:200], md["src"][:200]))
+            if md["src"] != md["cfg"]:
+                problems.append("the lowered flow graph's trace differs from the source semantics (contradicts CF.lowering_correct): %s / %s"
+                                % (md["cfg"][:200], md["src"][:200]))
+            h2, d2 = kv(hi)
+            try:
+                ir = bytes.fromhex(d2["mods"].split(";")[0][2:]).decode()
+                blocks, entry = cfgen.ir_blocks(ir)
+                why = cfgen.bisimilar(blocks, entry, md["main"], md["defs"])
+            except Exception as e:       # an IR shape the extractor does not know
+                why = "IR of main could not be read: %r" % e
+            if why:
+                problems.append("the basic blocks of the real IR are not bisimilar to the lowered flow graph: " + why)
+        dist["control-flow:" + ("agree" if not problems else "differ")] += 1
+        if problems:
+            rep.violation("cf:" + " ".join(cfgen.sx(x) for x in b)[:300] + ":" + "".join(map(str, o)), {
+                "why": problems[:4], "source": src, "harness_request": "alpha\trun\tm.pn\t" + esc(src), "model_request": mreq,
+                "implementation": ha[:600], "model": ma[:600]})
+        else:
+            agreeing += 1
     report_broken_proof(rep)
     rep.coverage.update({
-        "evaluations": len(jobs) + len(aggs),
+        "evaluations": len(jobs) + len(aggs) + len(cfcases),
         "programs": len(keep),
         "distinct_nontrivial": len(set(progen.sx_prog(progs[i]) for i in keep)),
         "rule": "type-directed random programs (11 integer types + bool, constants, helper functions with value / pointer / "
@@ -96,7 +146,9 @@ def main():
                 "all operators, prints of every variable, exit status) rendered with random layout (indentation, blank lines, "
                 "comments, redundant parentheses, literal spellings); every 5th program under three layouts; programs on which "
                 "the interpreter reports UB or runs out of fuel are discarded (counted in distribution); non-trivial = all kept; "
-                "plus structure/word-literal programs against a Python oracle (weighted sum of the member values)",
+                "plus structure/word-literal programs against a Python oracle (weighted sum of the member values); plus control-flow "
+                "skeletons (blocks, if/else/else-if, forward gotos, labels, looped blocks, oracle-driven conditions): printed trace = "
+                "source semantics = lowered flow graph, and the real IR's basic blocks bisimilar to the lowered graph",
         "traces_validated_against_impl": agreeing,
         "distribution": dict(dist), "feature_counts": dict(feats),
         "samples": [progen.sx_prog(progs[keep[0]])[:1500]] if keep else [],
